@@ -52,6 +52,14 @@ def chkK (s : State) : Bool :=
     | _ => true)
   && (List.range s.heap.length).all (fun o => decide (s.owed o ≤ 1))
 
+def chkR (s : State) : Bool :=
+  let big := s.roots ++ s.raws ++ s.wroots ++ (s.vals.map (fun v => v.held ++ v.weaks)).flatten
+      ++ ((List.range s.heap.length).map (fun a => s.heldOf a ++ s.weaksOf a)).flatten
+      ++ (s.stack.map (fun f => match f with
+          | .rcDrop t => [t] | .weakDrop t => [t] | .dropVal v => v.held ++ v.weaks
+          | .dropFields h w => h ++ w | _ => [])).flatten
+  big.all (fun t => t < s.heap.length)
+
 def chkP (s : State) : Bool :=
   (List.range s.heap.length).all (fun a => (List.range s.heap.length).all (fun b =>
     !s.isLive a || decide (s.F a b ≤ s.H a b)))
@@ -76,7 +84,7 @@ def violations (s : State) (pSoFar : Bool) : List String :=
   if s.err.isSome then (if pSoFar && s.libErr then ["LibErr"] else []) else
   (if s.chkO then [] else ["InvO"]) ++ (if s.chkB then [] else ["InvB"]) ++
   (if s.chkC then [] else ["InvC"]) ++ (if s.chkW then [] else ["InvW"]) ++
-  (if s.chkK then [] else ["InvK"]) ++
+  (if s.chkK then [] else ["InvK"]) ++ (if s.chkR then [] else ["InvR"]) ++
   (if pSoFar && !s.chkS then ["InvS"] else []) ++
   (if pSoFar && s.libErr then ["LibErr"] else [])
 
